@@ -4,6 +4,7 @@ import importlib
 PROPS = {
     "C13": [("u_discover", "quick"), ("u_topo", "quick"), ("u_diagord", "quick"), ("u_link", "quick")],
     "C08": [("u_capt", "quick"), ("u_closenv", "quick")],
+    "C03": [("u_msubst", "quick"), ("u_munify", "quick"), ("u_tmono", "quick")],
     "C05": [("u_scope", "quick")],
     "C06": [("u_rows", "quick")],
     "C17": [("u_dynvis", "quick"), ("u_ceffect", "quick")],
